@@ -132,7 +132,7 @@ def build_root(root, conc):
         if conc.cf_factor is not None:
             bw1 = kw["sample_rate"] if cls in ("BasebandSignal", "DualPolarizationSignal") else conc.cbw[0] * conc.cbw[1]
             kw["center_freq"] = (bw1 * nchan * conc.cf_factor).to(conc.funit if conc.cf else u.MHz)
-        kw["freq_align"] = root["align"]
+        kw["freq_align"] = root.get("areq", root["align"])
         if cls in ("RadioSignal", "IntensitySignal", "FullStokesSignal"):
             kw["chan_bw"] = conc.cbw[0] * conc.cbw[1]
     if cls == "DualPolarizationSignal":
